@@ -15,6 +15,7 @@ import (
 	"fmt"
 	"math/big"
 	"math/rand"
+	"reflect"
 	"strings"
 	"testing"
 
@@ -53,6 +54,7 @@ type kind struct {
 	name   string
 	base   func(g *gen, chain string) claim
 	clone  func(c claim) claim
+	zero   func() claim
 	line   func(c claim) string // op line without the trailing checksum bit
 	addrs  func(c claim) (chain string, ext []string, bech []string)
 	effect func(c claim) string // canonical text of the effect-relevant fields
@@ -67,7 +69,8 @@ type numField struct {
 }
 
 type gen struct {
-	rng *rand.Rand
+	rng  *rand.Rand
+	pool []string // when set, external addresses are mostly drawn from here (registered oracles of the keeper run)
 }
 
 var ethChains = []string{"eth", "bsc", "polygon", "avalanche", "arbitrum", "optimism", "layer2"}
@@ -85,7 +88,96 @@ func (g *gen) bytes(n int) []byte {
 	return b
 }
 
-func (g *gen) ext(chain string) string { return ct.ExternalAddrToStr(chain, g.bytes(20)) }
+func (g *gen) ext(chain string) string {
+	if len(g.pool) > 0 && g.rng.Intn(8) != 0 {
+		return hx.Pick(g.rng, g.pool)
+	}
+	return ct.ExternalAddrToStr(chain, g.bytes(20))
+}
+
+var targetPrefixes = []string{"px", "cosmos", "0x", "fx", "osmo", "PX", " ", "p x", ""}
+
+// target: the texts `SendToFxExecuted` interprets through fxtypes.ParseFxTarget (and near misses of them)
+func (g *gen) target() string {
+	n := fmt.Sprint(hx.Pick(g.rng, []uint64{0, 1, 7, 10, 99, 1<<64 - 1}))
+	if g.rng.Intn(12) == 0 {
+		n = hx.Pick(g.rng, []string{"00", "07", "18446744073709551616", "-1", "", "x"})
+	}
+	px := hx.Pick(g.rng, targetPrefixes)
+	switch g.rng.Intn(14) {
+	case 0:
+		return ""
+	case 1:
+		return fxtypes.ERC20Target
+	case 2:
+		return fxtypes.LegacyERC20Target
+	case 3:
+		return hx.Pick(g.rng, []string{fxtypes.GravityTarget, fxtypes.EthTarget, fxtypes.LegacyChainPrefix + fxtypes.GravityTarget, fxtypes.LegacyChainPrefix + "bsc", "bsc", "tron"})
+	case 4, 5:
+		return px + "/transfer/channel-" + n
+	case 6:
+		return fxtypes.IBCPrefix + n + "/" + px
+	case 7:
+		return fxtypes.IBCPrefix + px + "/transfer/channel-" + n
+	case 8:
+		return "channel-" + n + "/" + px
+	case 9:
+		return fxtypes.LegacyChainPrefix + px + "/transfer/channel-" + n
+	case 10:
+		return px + "/" + hx.Pick(g.rng, []string{"Transfer", "transfer ", "icahost", ""}) + "/channel-" + n
+	case 11:
+		return "transfer/channel-" + n
+	case 12:
+		return g.free()
+	default:
+		return string(g.bytes(1 + g.rng.Intn(12)))
+	}
+}
+
+func (g *gen) hexCase(s string) string {
+	switch g.rng.Intn(4) {
+	case 0:
+		return strings.ToUpper(s)
+	case 1:
+		b := []byte(s)
+		for i := range b {
+			if g.rng.Intn(2) == 0 {
+				b[i] = strings.ToUpper(string(b[i]))[0]
+			}
+		}
+		return string(b)
+	}
+	return s
+}
+
+// hexText: a hex-encoded text field (TargetIbc, ChannelIbc): mostly a structured target, sometimes arbitrary bytes
+func (g *gen) hexText() string {
+	if g.rng.Intn(5) == 0 {
+		return g.hexData()
+	}
+	return g.hexCase(hex.EncodeToString([]byte(g.target())))
+}
+
+func (g *gen) hexTextOther(old string) string {
+	for {
+		v := g.hexText()
+		if v != old {
+			return v
+		}
+	}
+}
+
+// memo: bridge-call memos are 32-byte words; MemoSendCallTo switches receiver and EVM caller
+func (g *gen) memo() string {
+	switch g.rng.Intn(4) {
+	case 0:
+		return g.hexCase(hex.EncodeToString(ct.MemoSendCallTo.Bytes()))
+	case 1:
+		return ""
+	default:
+		return g.hexData()
+	}
+}
 
 func (g *gen) bech() string {
 	n := 20
@@ -303,10 +395,10 @@ func hashOf(c claim) (res string) {
 // the six claim types
 
 func kinds() []*kind {
-	stf := &kind{tag: "stf", name: "MsgSendToFxClaim",
+	stf := &kind{tag: "stf", name: "MsgSendToFxClaim", zero: func() claim { return &ct.MsgSendToFxClaim{} },
 		base: func(g *gen, ch string) claim {
 			return &ct.MsgSendToFxClaim{EventNonce: g.u64(), BlockHeight: g.u64(), TokenContract: g.ext(ch), Amount: g.amount(),
-				Sender: g.ext(ch), Receiver: g.bech(), TargetIbc: g.hexData(), BridgerAddress: g.bech(), ChainName: ch}
+				Sender: g.ext(ch), Receiver: g.bech(), TargetIbc: g.hexText(), BridgerAddress: g.bech(), ChainName: ch}
 		},
 		clone: func(c claim) claim { cp := *c.(*ct.MsgSendToFxClaim); return &cp },
 		line: func(c claim) string {
@@ -338,18 +430,18 @@ func kinds() []*kind {
 			{"Amount", true, func(g *gen, c claim, ch string) { m := c.(*ct.MsgSendToFxClaim); m.Amount = g.amountOther(m.Amount) }},
 			{"Sender", true, func(g *gen, c claim, ch string) { m := c.(*ct.MsgSendToFxClaim); m.Sender = g.extOther(ch, m.Sender) }},
 			{"Receiver", true, func(g *gen, c claim, ch string) { m := c.(*ct.MsgSendToFxClaim); m.Receiver = g.bech() }},
-			{"TargetIbc", true, func(g *gen, c claim, ch string) { m := c.(*ct.MsgSendToFxClaim); m.TargetIbc = g.hexOther(m.TargetIbc) }},
+			{"TargetIbc", true, func(g *gen, c claim, ch string) { m := c.(*ct.MsgSendToFxClaim); m.TargetIbc = g.hexTextOther(m.TargetIbc) }},
 			{"BridgerAddress", false, func(g *gen, c claim, ch string) { m := c.(*ct.MsgSendToFxClaim); m.BridgerAddress = g.bech() }},
 		}}
 
-	bc := &kind{tag: "bc", name: "MsgBridgeCallClaim",
+	bc := &kind{tag: "bc", name: "MsgBridgeCallClaim", zero: func() claim { return &ct.MsgBridgeCallClaim{} },
 		base: func(g *gen, ch string) claim {
 			n := g.rng.Intn(4)
 			if g.rng.Intn(10) == 0 {
 				n = 8
 			}
 			m := &ct.MsgBridgeCallClaim{ChainName: ch, BridgerAddress: g.bech(), EventNonce: g.u64(), BlockHeight: g.u64(), Sender: g.ext(ch),
-				Refund: g.ext(ch), To: g.ext(ch), Data: g.hexData(), Value: g.amount(), Memo: g.hexData(), TxOrigin: g.ext(ch),
+				Refund: g.ext(ch), To: g.ext(ch), Data: g.hexData(), Value: g.amount(), Memo: g.memo(), TxOrigin: g.ext(ch),
 				TokenContracts: []string{}, Amounts: []sdkmath.Int{}}
 			for i := 0; i < n; i++ {
 				m.TokenContracts = append(m.TokenContracts, g.ext(ch))
@@ -431,7 +523,7 @@ func kinds() []*kind {
 			{"BridgerAddress", false, func(g *gen, c claim, ch string) { m := c.(*ct.MsgBridgeCallClaim); m.BridgerAddress = g.bech() }},
 		}}
 
-	bcr := &kind{tag: "bcr", name: "MsgBridgeCallResultClaim",
+	bcr := &kind{tag: "bcr", name: "MsgBridgeCallResultClaim", zero: func() claim { return &ct.MsgBridgeCallResultClaim{} },
 		base: func(g *gen, ch string) claim {
 			return &ct.MsgBridgeCallResultClaim{ChainName: ch, BridgerAddress: g.bech(), EventNonce: g.u64(), BlockHeight: g.u64(), Nonce: g.u64(),
 				TxOrigin: g.ext(ch), Success: g.rng.Intn(2) == 0, Cause: g.hexData()}
@@ -469,7 +561,7 @@ func kinds() []*kind {
 			{"BridgerAddress", false, func(g *gen, c claim, ch string) { m := c.(*ct.MsgBridgeCallResultClaim); m.BridgerAddress = g.bech() }},
 		}}
 
-	ste := &kind{tag: "ste", name: "MsgSendToExternalClaim",
+	ste := &kind{tag: "ste", name: "MsgSendToExternalClaim", zero: func() claim { return &ct.MsgSendToExternalClaim{} },
 		base: func(g *gen, ch string) claim {
 			return &ct.MsgSendToExternalClaim{EventNonce: g.u64(), BlockHeight: g.u64(), BatchNonce: g.u64(), TokenContract: g.ext(ch),
 				BridgerAddress: g.bech(), ChainName: ch}
@@ -508,10 +600,10 @@ func kinds() []*kind {
 			{"BridgerAddress", false, func(g *gen, c claim, ch string) { m := c.(*ct.MsgSendToExternalClaim); m.BridgerAddress = g.bech() }},
 		}}
 
-	bt := &kind{tag: "bt", name: "MsgBridgeTokenClaim",
+	bt := &kind{tag: "bt", name: "MsgBridgeTokenClaim", zero: func() claim { return &ct.MsgBridgeTokenClaim{} },
 		base: func(g *gen, ch string) claim {
 			m := &ct.MsgBridgeTokenClaim{EventNonce: g.u64(), BlockHeight: g.u64(), TokenContract: g.ext(ch), Name: g.free(), Symbol: g.free(),
-				Decimals: uint64(g.rng.Intn(40)), BridgerAddress: g.bech(), ChannelIbc: g.hexData(), ChainName: ch}
+				Decimals: uint64(g.rng.Intn(40)), BridgerAddress: g.bech(), ChannelIbc: g.hexText(), ChainName: ch}
 			if g.rng.Intn(4) == 0 {
 				m.Symbol = fxtypes.DefaultDenom
 				m.Decimals = 18
@@ -554,12 +646,12 @@ func kinds() []*kind {
 			}},
 			{"ChannelIbc", true, func(g *gen, c claim, ch string) {
 				m := c.(*ct.MsgBridgeTokenClaim)
-				m.ChannelIbc = g.hexOther(m.ChannelIbc)
+				m.ChannelIbc = g.hexTextOther(m.ChannelIbc)
 			}},
 			{"BridgerAddress", false, func(g *gen, c claim, ch string) { m := c.(*ct.MsgBridgeTokenClaim); m.BridgerAddress = g.bech() }},
 		}}
 
-	osu := &kind{tag: "osu", name: "MsgOracleSetUpdatedClaim",
+	osu := &kind{tag: "osu", name: "MsgOracleSetUpdatedClaim", zero: func() claim { return &ct.MsgOracleSetUpdatedClaim{} },
 		base: func(g *gen, ch string) claim {
 			n := 1 + g.rng.Intn(4)
 			if g.rng.Intn(10) == 0 {
@@ -695,10 +787,22 @@ type seen struct {
 }
 
 type run struct {
-	out      *hx.Out
-	global   map[string]seen // real hash -> first valid claim with that hash
-	reported map[string]bool
-	nViol    map[string]int
+	out       *hx.Out
+	global    map[string]seen // real hash -> first valid claim with that hash
+	reported  map[string]bool
+	nViol     map[string]int
+	nVariants int
+	facts     map[string]factClaim
+	found     []collision // colliding pairs found by the pure search, replayed on the real keeper
+	corpus    []loadedPair
+	nPure     int // violations recorded by the pure search
+}
+
+// collision: two ValidateBasic-valid claims of one type with different effect and the same real ClaimHash
+type collision struct {
+	k    *kind
+	what string
+	a, b claim
 }
 
 // emit prints the claim and returns (hash, verdict, line)
@@ -709,12 +813,20 @@ func (r *run) emit(k *kind, c claim) (string, string, string) {
 	return h, v, line
 }
 
-// violate records a monitor violation, at most twice per description (the shared cap is 50 in total)
+// violate records a monitor violation, once per description; the pure search may use at most 24 of the 50 slots of the
+// shared record so that what the real keeper shows afterwards is always reported too
 func (r *run) violate(desc string, replay []string) {
 	r.nViol[desc]++
-	if r.nViol[desc] <= 2 {
-		r.out.ViolateWith(desc, replay)
+	if r.nViol[desc] > 1 {
+		return
 	}
+	if !strings.HasPrefix(desc, "real keeper") {
+		r.nPure++
+		if r.nPure > 24 {
+			return
+		}
+	}
+	r.out.ViolateWith(desc, replay)
 }
 
 func (r *run) record(k *kind, c claim, h, v, line string) {
@@ -743,17 +855,53 @@ func (r *run) pair(k *kind, what string, a, b claim) {
 
 // against emits b and compares it with the already emitted claim a
 func (r *run) against(k *kind, what string, a claim, ha, va, la string, b claim) {
-	lb := k.line(b) + " " + ckBit(k, b)
-	hb, vb := hashOf(b), verdict(b)
+	lb, hb, vb := r.monitor(k, what, a, ha, va, la, b)
+	r.record(k, b, hb, vb, lb)
+}
+
+// check compares b with the already emitted claim a on the real functions only (b is not sent through the model)
+func (r *run) check(k *kind, what string, a claim, ha, va, la string, b claim) {
+	r.monitor(k, what, a, ha, va, la, b)
+}
+
+// monitor: the property on the real functions — two valid claims with different executed effect must not share a hash
+func (r *run) monitor(k *kind, what string, a claim, ha, va, la string, b claim) (lb, hb, vb string) {
+	lb = k.line(b) + " " + ckBit(k, b)
+	hb, vb = hashOf(b), verdict(b)
+	r.out.Count("pair:" + va + "/" + vb)
 	if va == "ok" && vb == "ok" {
 		r.out.Nontrivial(k.tag + ":" + what)
 		if ha == hb && k.effect(a) != k.effect(b) {
 			r.reported[ha] = true
-			r.violate(fmt.Sprintf("%s: valid claims differing only in %s share a ClaimHash", k.name, what),
+			desc := fmt.Sprintf("%s: valid claims differing only in %s share a ClaimHash", k.name, what)
+			if interpreted(k, a) != interpreted(k, b) {
+				// not merely two spellings of one value: the handlers act differently on the two claims
+				desc += "; the handlers interpret the two differently"
+			}
+			if r.nViol[desc] == 0 {
+				r.found = append(r.found, collision{k, what, k.clone(a), k.clone(b)})
+			}
+			r.violate(desc,
 				[]string{la, lb, "# both pass ValidateBasic; real ClaimHash of both = " + ha, fmt.Sprintf("# a = %+v", a), fmt.Sprintf("# b = %+v", b)})
 		}
 	}
-	r.record(k, b, hb, vb, lb)
+	return lb, hb, vb
+}
+
+// interpreted: the effect-relevant fields as the handlers read them — hex text decoded (letter case of hex digits is
+// immaterial), the SendToFx target parsed by fxtypes.ParseFxTarget as SendToFxExecuted does
+func interpreted(k *kind, c claim) string {
+	cp := k.clone(c)
+	v := elem(cp)
+	for _, name := range []string{"Data", "Memo", "Cause", "ChannelIbc"} {
+		if f := v.FieldByName(name); f.IsValid() && f.Kind() == reflect.String {
+			f.SetString(strings.ToLower(f.String()))
+		}
+	}
+	if f := v.FieldByName("TargetIbc"); f.IsValid() {
+		f.SetString(fmt.Sprintf("%+v", fxtypes.ParseFxTarget(f.String(), true)))
+	}
+	return k.effect(cp)
 }
 
 // recorded witnesses (lean/FxVerif/Props/C03.lean `legacy_*_not_injective`) and fixed adversarial pairs
@@ -796,16 +944,24 @@ func TestC03(t *testing.T) {
 	out := hx.NewOut()
 	rng := rand.New(rand.NewSource(hx.Seed()))
 	g := &gen{rng: rng}
-	r := &run{out: out, global: map[string]seen{}, reported: map[string]bool{}, nViol: map[string]int{}}
+	r := &run{out: out, global: map[string]seen{}, reported: map[string]bool{}, nViol: map[string]int{}, facts: loadFacts()}
 	ks := kinds()
 	byTag := map[string]*kind{}
 	for _, k := range ks {
 		byTag[k.tag] = k
 	}
 	r.witnesses(byTag)
-	keeperScenarios(t, r, byTag)
+	r.corpus = loadCorpus(byTag)
+	if len(r.corpus) > 0 {
+		out.Reset("corpus")
+		for _, p := range r.corpus {
+			out.Count("corpus:" + p.k.tag)
+			r.pair(p.k, p.what, p.a, p.b)
+		}
+	}
+	r.targets(g)
 
-	nBase := hx.N(120, 1500) // base claims per type
+	nBase := hx.N(60, 800) // base claims per type
 	for _, k := range ks {
 		for i := 0; i < nBase; i++ {
 			out.Reset(k.tag)
@@ -824,16 +980,61 @@ func TestC03(t *testing.T) {
 			}
 			// adjacent-field re-splits and malformed variants
 			r.adversarial(g, k, base, ch)
+			r.formatResplit(g, k, base)
 			if i%4 == 0 {
 				r.resplit(g, k, base)
 			}
+			// spellings, normal forms, boundaries, orderings of every part of the claim
+			r.perturb(g, k, base, hb, vb, lb)
 		}
 	}
+	// the real keeper: fixed and generated disagreements, and every collision the search above found
+	keeperRun(t, r, g, byTag)
 	out.Stats.Extra["claim_types"] = len(ks)
-	out.Close("real ClaimHash == SHA-256(generated path) and real ValidateBasic verdict == model valid, per claim; " +
-		"monitor: no two ValidateBasic-valid claims with different effect-relevant fields share a real ClaimHash")
+	out.Stats.Extra["perturbation_variants"] = r.nVariants
+	out.Stats.Extra["collisions_found"] = len(r.found)
+	out.Close("real ClaimHash == SHA-256(generated path), real ValidateBasic verdict == model valid (regenerated validGen) and real " +
+		"ParseFxTarget == model, per line; real keeper attestation table == Lean attestation model per vote; " +
+		"monitors: no two ValidateBasic-valid claims with different effect-relevant fields share a real ClaimHash; on the real keeper the " +
+		"executed claim and the stored result agree field for field with every vote tallied in the observed attestation")
 	if len(out.Stats.Violations) > 0 {
 		t.Logf("monitor violations: %d", len(out.Stats.Violations))
+	}
+}
+
+// targets: fxtypes.ParseFxTarget(hexText, true) — the routing decision of SendToFxExecuted — against the Lean model
+func (r *run) targets(g *gen) {
+	r.out.Reset("targets")
+	seenT := map[string]bool{}
+	one := func(raw string) {
+		if seenT[raw] {
+			return
+		}
+		seenT[raw] = true
+		t := fxtypes.ParseFxTarget(raw, true)
+		kindS := "local"
+		if t.IsIBC() {
+			kindS = "ibc"
+		}
+		r.out.Count("target:" + kindS)
+		r.out.Emit("tgt "+hx.HexS(raw), fmt.Sprintf("%s %s %s %s %s %s", kindS, hx.HexS(t.GetTarget()), hx.HexS(t.Prefix), hx.HexS(t.SourcePort),
+			hx.HexS(t.SourceChannel), hx.HexS(t.String())))
+	}
+	for i := 0; i < hx.N(250, 3000); i++ {
+		txt := g.target()
+		raw := g.hexCase(hex.EncodeToString([]byte(txt)))
+		one(raw)
+		if i%3 == 0 {
+			for _, p := range textNormalForms(g, txt) {
+				one(hex.EncodeToString([]byte(p.val)))
+			}
+		}
+		if i%10 == 0 {
+			// not hex / odd length: ParseFxTarget ignores the decoding error and parses the decoded prefix
+			one(raw + "0")
+			one(raw + "zz")
+			one("0x" + raw)
+		}
 	}
 }
 
